@@ -24,3 +24,8 @@ Definition c06_case (compression : bool) (chunks : list (list Z)) (impl_events :
   list_eqb ievent_eqb evs impl_events &&
   list_eqb obs_eqb (run_cobs compression toy_decompress (cinit) 0 chunks) impl_obs &&
   zlist_eqb (c_io st) impl_io && zlist_eqb (c_fb st) impl_fb.
+
+Definition c06_switch_case (v5 negotiated auth : bool) (impl_after_reply impl_after_success : Z * Z * Z) : bool :=
+  let s1 := on_reply v5 (if auth then RAuthenticate else RReady) (hs_init negotiated) in
+  let s2 := if auth then on_reply v5 RAuthSuccess s1 else s1 in
+  obs_eqb (hs_obs s1) impl_after_reply && obs_eqb (hs_obs s2) impl_after_success.
